@@ -114,12 +114,13 @@ func genC12(t *rapid.T) C12Case {
 	}
 	for i := 0; i < n; i++ {
 		if i == bigAt {
-			c.Steps = append(c.Steps, g.addOnly(rapid.IntRange(1100, 3200).Draw(t, "bigadd")))
+			c.Steps = append(c.Steps, g.addOnly(rapid.IntRange(1100, 1700).Draw(t, "bigadd")))
 			continue
 		}
 		c.Steps = append(c.Steps, g.next(t, lim, ops))
 	}
 	c.Steps = c12Normalize(c.Cfg, c.Steps)
+	c.Cfg.NoVerify = true
 	n = len(c.Steps)
 	states, _, _ := c12States(c)
 	if states == nil {
@@ -158,6 +159,10 @@ func genC12(t *rapid.T) C12Case {
 		c.Readers = rapid.IntRange(1, 6).Draw(t, "readers")
 		c.Procs = rapid.SampledFrom([]int{1, 2, 4, 8, 16}).Draw(t, "procs")
 		c.Gap = rapid.IntRange(0, 40).Draw(t, "gap")
+		if bigAt >= 0 { // queries on thousands of leaves are slow under the race detector: keep the case short
+			c.Readers = rapid.IntRange(1, 3).Draw(t, "readers-big")
+			c.Gap = rapid.IntRange(0, 4).Draw(t, "gap-big")
+		}
 	}
 	c.Second = rapid.IntRange(0, 2).Draw(t, "second") == 0
 	if c.Second && c.Mode == "stress" {
@@ -354,6 +359,10 @@ func runC12(c C12Case) *Result {
 	}
 	c.Cfg.Direct = false // Direct mode peeks into the exported cache without the lock: fine sequentially, not here
 	c.Steps = c12Normalize(c.Cfg, c.Steps)
+	// after normalisation every block of a partial forest is preceded by its own Verify(remember) step, so
+	// the block step itself is Modify alone: ONE library call, one critical section (a second writer waiting
+	// for the lock must not be able to slip in between two calls of the same step)
+	c.Cfg.NoVerify = true
 	n := len(c.Steps)
 	states, ce, oe := c12States(c)
 	if ce != nil {
@@ -447,6 +456,31 @@ func runC12(c C12Case) *Result {
 
 const c12Stall = 60 * time.Second
 
+// c12Progress counts anything that shows the case is alive: hook sites passed inside the library
+// (every added leaf, every removed target, ...), finished queries, finished writer steps. A stall is
+// declared only when this counter has not moved for c12Stall - never because a (possibly huge, race-
+// instrumented, CPU-starved) case simply takes long.
+var c12Progress atomic.Int64
+
+// c12Wait waits for ch; it returns false when the progress counter stood still for c12Stall.
+func c12Wait(ch <-chan struct{}) bool {
+	last, since := c12Progress.Load(), time.Now()
+	tick := time.NewTicker(500 * time.Millisecond)
+	defer tick.Stop()
+	for {
+		select {
+		case <-ch:
+			return true
+		case <-tick.C:
+			if cur := c12Progress.Load(); cur != last {
+				last, since = cur, time.Now()
+			} else if time.Since(since) > c12Stall {
+				return false
+			}
+		}
+	}
+}
+
 // stalled decides between "deadlock" (every goroutine of the case parked on the RWMutex) and an
 // infrastructure timeout.
 func c12Stalled(res *Result, what string) *Result {
@@ -454,7 +488,7 @@ func c12Stalled(res *Result, what string) *Result {
 	buf = buf[:runtime.Stack(buf, true)]
 	dump := string(buf)
 	if strings.Contains(dump, "sync.(*RWMutex)") {
-		return res.failf("deadlock: %s made no progress for %v and goroutines are parked on the forest's RWMutex:\n%s", what, c12Stall, dump[:min(len(dump), 6000)])
+		return res.failf("deadlock: %s: no hook site passed, no query and no writer step finished for %v, and goroutines are parked on the forest's RWMutex:\n%s", what, c12Stall, dump[:min(len(dump), 6000)])
 	}
 	fmt.Printf("INFRA: %s made no progress for %v (not a deadlock on the RWMutex)\n%s\n", what, c12Stall, dump[:min(len(dump), 3000)])
 	os.Exit(4)
@@ -481,6 +515,7 @@ func runC12Owned(c C12Case, rq []c12Resolved, ans [][]string, calls []func(in *I
 	var writerGID atomic.Int64
 	armed.Store(true)
 	u.VerifSetPoint(func(site string) {
+		c12Progress.Add(1)
 		if !armed.Load() || site != c.Site || writerGID.Load() != curGID() {
 			return
 		}
@@ -497,18 +532,28 @@ func runC12Owned(c C12Case, rq []c12Resolved, ans [][]string, calls []func(in *I
 		writerDone <- [2]error{nil, calls[c.Pause](inst)}
 	}()
 	reached := false
-	select {
-	case <-paused:
-		reached = true
-	case errs := <-writerDone:
+	firstEvent := make(chan struct{})
+	var firstErrs [2]error
+	finishedFirst := false
+	go func() {
+		select {
+		case <-paused:
+			reached = true
+		case errs := <-writerDone:
+			firstErrs, finishedFirst = errs, true
+			writerDone <- errs
+		}
+		close(firstEvent)
+	}()
+	if !c12Wait(firstEvent) {
+		return c12Stalled(res, "the writer")
+	}
+	if finishedFirst {
 		armed.Store(false)
-		if errs[0] != nil || errs[1] != nil {
+		if firstErrs[0] != nil || firstErrs[1] != nil {
 			res.class("setup-failed")
 			return res
 		}
-		writerDone <- errs
-	case <-time.After(c12Stall):
-		return c12Stalled(res, "the writer")
 	}
 	type qres struct {
 		out         string
@@ -522,12 +567,14 @@ func runC12Owned(c C12Case, rq []c12Resolved, ans [][]string, calls []func(in *I
 		go func(i int) {
 			defer wg.Done()
 			out := evalQuery(m, rq[i])
+			c12Progress.Add(1)
 			results[i] = qres{out, reached && !released.Load()}
 		}(i)
 	}
 	// second writer: the next step of the script, issued while the first writer is suspended inside
 	// its critical section. It has to wait for the lock; it must not complete during the pause.
-	second := c.Second && reached && c.Pause+1 < n
+	// "reread" is two library calls (Write, then Read): not a step another writer can issue atomically
+	second := c.Second && reached && c.Pause+1 < n && c.Steps[c.Pause+1].Op != "reread"
 	var secondErr error
 	var secondEarly bool
 	if second {
@@ -552,19 +599,18 @@ func runC12Owned(c C12Case, rq []c12Resolved, ans [][]string, calls []func(in *I
 	}
 	qdone := make(chan struct{})
 	go func() { wg.Wait(); close(qdone) }()
-	select {
-	case <-qdone:
-	case <-time.After(c12Stall):
+	if !c12Wait(qdone) {
 		return c12Stalled(res, "the queries")
 	}
-	select {
-	case errs := <-writerDone:
-		if errs[0] != nil || errs[1] != nil {
-			res.class("setup-failed")
-			return res
-		}
-	case <-time.After(c12Stall):
+	wfin := make(chan struct{})
+	var werrs [2]error
+	go func() { werrs = <-writerDone; close(wfin) }()
+	if !c12Wait(wfin) {
 		return c12Stalled(res, "the writer after release")
+	}
+	if werrs[0] != nil || werrs[1] != nil {
+		res.class("setup-failed")
+		return res
 	}
 	before, afterS := ans[c.Pause], ans[c.Pause+1]
 	final := afterS
@@ -646,6 +692,7 @@ func runC12Stress(c C12Case, rq []c12Resolved, ans [][]string, calls []func(in *
 	}
 	inst := newInst(c.Cfg)
 	m := inst.M
+	u.VerifSetPoint(func(string) { c12Progress.Add(1) })
 	secondWriter := len(extra) > 0
 	// with a second writer remembering further leaves the stored set of a partial forest no longer
 	// follows the sequential replica: readers then only ask storage-independent questions
@@ -685,6 +732,7 @@ func runC12Stress(c C12Case, rq []c12Resolved, ans [][]string, calls []func(in *
 				out := evalQuery(m, rq[i])
 				b := done.Load()
 				ops.Add(1)
+				c12Progress.Add(1)
 				hi := b + 1
 				if hi > int64(n) {
 					hi = int64(n)
@@ -745,6 +793,7 @@ func runC12Stress(c C12Case, rq []c12Resolved, ans [][]string, calls []func(in *
 				}()
 				secondCalls.Add(1)
 				ops.Add(1)
+				c12Progress.Add(1)
 				runtime.Gosched()
 			}
 		}()
@@ -763,19 +812,16 @@ func runC12Stress(c C12Case, rq []c12Resolved, ans [][]string, calls []func(in *
 				return
 			}
 			done.Add(1)
+			c12Progress.Add(1)
 		}
 	}()
-	select {
-	case <-wdone:
-	case <-time.After(c12Stall):
+	if !c12Wait(wdone) {
 		return c12Stalled(res, "the writer (stress)")
 	}
 	stop.Store(true)
 	rd := make(chan struct{})
 	go func() { wg.Wait(); close(rd) }()
-	select {
-	case <-rd:
-	case <-time.After(c12Stall):
+	if !c12Wait(rd) {
 		return c12Stalled(res, "the readers (stress)")
 	}
 	if e := firstErr.Load(); e != nil {
